@@ -5,6 +5,7 @@ package compare
 import (
 	"strings"
 
+	"go.uber.org/thriftrw/ast"
 	"go.uber.org/thriftrw/compile"
 )
 
@@ -195,4 +196,109 @@ func h20() {
 func h20_witness() {
 	h20()
 	verifAssert(false, "reachable")
+}
+
+func init() {
+	verifHarnesses["h20k"] = h20k
+}
+
+// h20k: one Pass over two changed files (as git.Compare does) that declare
+// definitions of the same names, of every struct-like kind; the same edit
+// script applied to the first file and, by choice, to the second. Every
+// diagnostic must be there once per edited file, attributed to that file.
+func h20k() {
+	files := [...]string{"/git/a/b.thrift", "/git/c/b.thrift"}
+	rels := [...]string{"a/b.thrift", "c/b.thrift"}
+	p := &Pass{GitDir: "/git"}
+
+	kind := [...]ast.StructureType{ast.StructType, ast.UnionType, ast.ExceptionType}[verifChoice(3)]
+	id := verifI16()
+	fti := verifChoice(3)
+	nti := fti
+	if verifChoice(2) == 1 {
+		nti = (fti + 1) % 3
+	}
+	fromReq, toReq := verifBool(), verifBool()
+	addField, addReq := verifChoice(2) == 1, verifBool()
+	addID := verifI16()
+	verifAssume(addID != id)
+	if kind == ast.UnionType {
+		// members of a union cannot be required
+		verifAssume(!fromReq && !toReq && !addReq)
+	}
+	rmMethod := verifChoice(2) == 1
+	second := verifChoice(2) == 1
+
+	var want [2]struct{ rm, addReq, optReq, typ int }
+	for fi, file := range files {
+		from, to := zzMod(file), zzMod(file)
+		edited := fi == 0 || second
+		fs := &compile.StructSpec{Name: "U", File: file, Type: kind,
+			Fields: compile.FieldGroup{{ID: id, Name: "x", Type: zzTypes[fti], Required: fromReq}}}
+		from.Types["U"] = fs
+		ts := &compile.StructSpec{Name: "U", File: file, Type: kind,
+			Fields: compile.FieldGroup{{ID: id, Name: "x", Type: zzTypes[fti], Required: fromReq}}}
+		if edited {
+			ts.Fields[0].Type = zzTypes[nti]
+			ts.Fields[0].Required = toReq
+			if nti != fti {
+				want[fi].typ++
+			}
+			if !fromReq && toReq {
+				want[fi].optReq++
+			}
+			if addField {
+				ts.Fields = append(ts.Fields, &compile.FieldSpec{ID: addID, Name: "z", Type: zzTypes[0], Required: addReq})
+				if addReq {
+					want[fi].addReq++
+				}
+			}
+		}
+		to.Types["U"] = ts
+		fsv := &compile.ServiceSpec{Name: "A", File: file, Functions: map[string]*compile.FunctionSpec{"f": {Name: "f"}}}
+		tsv := &compile.ServiceSpec{Name: "A", File: file, Functions: map[string]*compile.FunctionSpec{}}
+		if edited && rmMethod {
+			want[fi].rm++
+		} else {
+			tsv.Functions["f"] = &compile.FunctionSpec{Name: "f"}
+		}
+		from.Services["A"], to.Services["A"] = fsv, tsv
+		p.CompareModules(from, to)
+	}
+
+	var got [2]struct{ rm, addReq, optReq, typ int }
+	other := 0
+	for _, d := range p.Lints() {
+		fi := -1
+		for i, r := range rels {
+			if d.FilePath == r {
+				fi = i
+			}
+		}
+		if fi < 0 {
+			other++
+			continue
+		}
+		switch {
+		case strings.HasPrefix(d.Message, "removing method"):
+			got[fi].rm++
+		case strings.HasPrefix(d.Message, "adding a required field"):
+			got[fi].addReq++
+		case strings.HasPrefix(d.Message, "changing an optional field"):
+			got[fi].optReq++
+		case strings.HasPrefix(d.Message, "changing type of field"):
+			got[fi].typ++
+		default:
+			other++
+		}
+	}
+	verifObserveInt("diagnostics", int64(len(p.Lints())))
+	verifAssert(other == 0, "every-diagnostic-documented-and-in-an-edited-file")
+	for fi := range files {
+		verifAssert(got[fi].rm == want[fi].rm, "removed-methods-per-file")
+		verifAssert(got[fi].addReq == want[fi].addReq, "added-required-fields-per-file")
+		verifAssert(got[fi].optReq == want[fi].optReq, "optional-to-required-per-file")
+		verifAssert(got[fi].typ == want[fi].typ, "type-changes-per-file")
+	}
+	verifReached("end")
 }
